@@ -71,10 +71,10 @@ fn main() {
             s.finish();
             out = std::mem::take(&mut s.out);
         }
-        "c19" | "c11" | "c11p" | "c08" | "c10log" => {
+        "c19" | "c11" | "c11p" | "c11sys" | "c08" | "c10log" => {
             let mut s = sess::Sess::new(&work);
             let thorough = std::env::var("VERIF_TIER").map_or(false, |t| t == "thorough");
-            if slice == "c19" { gate::c19(&mut s, &mut rng, n); } else if slice == "c11" { gate::c11(&mut s, &mut rng, n); } else if slice == "c11p" { gate::c11p(&mut s, &mut rng, n); } else if slice == "c08" { gate::c08(&mut s, &mut rng, n); } else { gate::c10log(&mut s, &mut rng, n, thorough); }
+            if slice == "c19" { gate::c19(&mut s, &mut rng, n); } else if slice == "c11" { gate::c11(&mut s, &mut rng, n); } else if slice == "c11p" { gate::c11p(&mut s, &mut rng, n); } else if slice == "c11sys" { gate::c11sys(&mut s, &mut rng, n); } else if slice == "c08" { gate::c08(&mut s, &mut rng, n); } else { gate::c10log(&mut s, &mut rng, n, thorough); }
             s.finish();
             out = std::mem::take(&mut s.out);
         }
